@@ -193,12 +193,19 @@ def ly1_canonical(m, run, funcs, rule='LY1.canonical-stride'):
     for fi in funcs:
         R = Resolver(fi)
         for sub in [x for x in walk_no_nested(fi.node) if isinstance(x, ast.Subscript)]:
-            if isinstance(sub.slice, (ast.Slice, ast.Constant)):
+            idx = sub.slice
+            if isinstance(idx, ast.Slice) and idx.step is not None and not isinstance(idx.step, ast.Constant):
+                # strided slice a[lo::step]: the index set lo + step * k, k an anonymous walk variable
+                walk = ast.copy_location(ast.Name(id='__walk__', ctx=ast.Load()), idx.step)
+                idx = ast.copy_location(ast.BinOp(left=idx.lower or ast.Constant(0), op=ast.Add(),
+                                                  right=ast.BinOp(left=idx.step, op=ast.Mult(), right=walk)), sub)
+                ast.fix_missing_locations(idx)
+            elif isinstance(idx, (ast.Slice, ast.Constant)):
                 continue
             arr = R.resolve_array(sub.value, sub)
             if arr is None:
                 continue
-            ok, p, problems = check_index(R, sub.slice, arr[0], sub)
+            ok, p, problems = check_index(R, idx, arr[0], sub)
             if not ok:
                 continue
             n += 1
